@@ -3,6 +3,7 @@ package props
 import (
 	"fmt"
 	"go/constant"
+	"go/token"
 	"go/types"
 	"regexp"
 	"strconv"
@@ -202,6 +203,7 @@ func stringRules(c *core.Ctx, combine, split *ssa.Function) {
 					if mi, ok := v.(*ssa.MakeInterface); ok {
 						v = mi.X
 					}
+					v = forwardLocalArray(v)
 					ex, ok := v.(*ssa.Extract)
 					if !ok || ex.Index != i {
 						argsOK = false
@@ -248,7 +250,7 @@ func stringRules(c *core.Ctx, combine, split *ssa.Function) {
 				good := len(targets) == 7
 				for i := 0; good && i < 7; i++ {
 					ld, ok := call.Call.Args[i].(*ssa.UnOp)
-					if !ok || ld.X != targets[i] {
+					if !ok || !sameLocalAddr(ld.X, targets[i]) {
 						good = false
 					}
 				}
@@ -266,6 +268,85 @@ func stringRules(c *core.Ctx, combine, split *ssa.Function) {
 	}
 	c.Decide(sOK, "C17-STRING", "cmpp.MsgIDString2Uint64", spos, "two paths: scan error -> 0, else CombineMsgID of the seven scanned values", sWhy)
 	_ = types.Typ
+}
+
+// sameLocalAddr: the same address - the same value, or the same constant element of the same local array.
+func sameLocalAddr(a, b ssa.Value) bool {
+	if a == b {
+		return true
+	}
+	ia, ok1 := a.(*ssa.IndexAddr)
+	ib, ok2 := b.(*ssa.IndexAddr)
+	if !ok1 || !ok2 || ia.X != ib.X {
+		return false
+	}
+	if _, isAlloc := ia.X.(*ssa.Alloc); !isAlloc {
+		return false
+	}
+	ka, okA := constInt(ia.Index)
+	kb, okB := constInt(ib.Index)
+	return okA && okB && ka == kb
+}
+
+// forwardLocalArray: v = f[k] for a local array f that is only ever accessed by constant index, with exactly one store
+// to element k, which dominates the load: the stored value. Otherwise v.
+func forwardLocalArray(v ssa.Value) ssa.Value {
+	ld, ok := v.(*ssa.UnOp)
+	if !ok || ld.Op != token.MUL {
+		return v
+	}
+	ia, ok := ld.X.(*ssa.IndexAddr)
+	if !ok {
+		return v
+	}
+	al, ok := ia.X.(*ssa.Alloc)
+	if !ok || al.Referrers() == nil {
+		return v
+	}
+	k, ok := constInt(ia.Index)
+	if !ok {
+		return v
+	}
+	var st *ssa.Store
+	n := 0
+	for _, r := range *al.Referrers() {
+		switch x := r.(type) {
+		case *ssa.IndexAddr:
+			kk, isK := constInt(x.Index)
+			if !isK || x.Referrers() == nil {
+				return v
+			}
+			for _, rr := range *x.Referrers() {
+				switch y := rr.(type) {
+				case *ssa.Store:
+					if y.Addr != ssa.Value(x) {
+						return v // the element's address escapes
+					}
+					if kk == k {
+						st = y
+						n++
+					}
+				case *ssa.UnOp, *ssa.DebugRef:
+				default:
+					return v
+				}
+			}
+		case *ssa.DebugRef:
+		default:
+			return v
+		}
+	}
+	if n != 1 {
+		return v
+	}
+	if st.Block() == ld.Block() {
+		if instrIndex(st) > instrIndex(ld) {
+			return v
+		}
+	} else if !st.Block().Dominates(ld.Block()) {
+		return v
+	}
+	return st.Val
 }
 
 // arrayStores returns the values stored into the elements of a local array (by constant index).
